@@ -17,7 +17,9 @@ type Fam = (&'static str, &'static str, Option<&'static [&'static str]>);
 
 fn families(property: &str) -> Vec<Fam> {
     const C02_CORE: &[&str] = &["routing", "flush", "probe", "panic", "spin", "livelock"];
-    const C09_CORE: &[&str] = &["spin", "livelock", "sleep"];
+    const C09_CORE: &[&str] = &["spin", "livelock", "sleep", "abandoned"];
+    // a peer whose registration was accepted (the server answered Ok) and then never reached the router
+    const C11_STORM: &[&str] = &["abandoned", "panic", "spin", "livelock"];
     const C01_CORE: &[&str] = &["delivery", "flush", "probe", "panic"];
     const C11_REBIND: &[&str] = &["binding", "panic", "spin", "livelock", "probe"];
     match property {
@@ -33,7 +35,7 @@ fn families(property: &str) -> Vec<Fam> {
         "C10" => vec![("reqrep", "c10", None)],
         // "accepted and then silently abandoned" also covers repliers that race for a topic: each must end up
         // served or explicitly refused (binding oracle), whatever the other repliers' sinks do
-        "C11" => vec![("pubsub", "c11", None), ("reqrep", "c11", None), ("reqrep", "c10", Some(C11_REBIND))],
+        "C11" => vec![("pubsub", "c11", None), ("reqrep", "c11", None), ("reqrep", "c10", Some(C11_REBIND)), ("pubsub", "burst", Some(C11_STORM)), ("reqrep", "burst", Some(C11_STORM))],
         "C16" => vec![("pubsub", "c16", None), ("reqrep", "c16", None), ("pubsub", "c16", None), ("reqrep", "c16", None), ("pubsub", "burst", None), ("reqrep", "burst", None)],
         _ => vec![],
     }
@@ -42,12 +44,12 @@ fn families(property: &str) -> Vec<Fam> {
 /// oracle classes that belong to another property's statement and are only counted here
 fn excluded(property: &str) -> &'static [&'static str] {
     match property {
-        "C01" => &["sleep"],
-        "C02" => &["sleep", "binding"],
-        "C08" => &["sleep"],
-        "C10" => &["sleep"],
+        "C01" => &["sleep", "abandoned"],
+        "C02" => &["sleep", "abandoned", "binding"],
+        "C08" => &["sleep", "abandoned"],
+        "C10" => &["sleep", "abandoned"],
         "C11" => &["sleep"],
-        "C16" => &["sleep"],
+        "C16" => &["sleep", "abandoned"],
         _ => &[],
     }
 }
